@@ -72,6 +72,27 @@ Theorem C13_levels : forall rx disc t m c k r nt,
 Proof. exact levels. Qed.
 Print Assumptions C13_levels.
 
+(* Known finding C13-generic-target.  A replacement target that is a GENERIC type is rendered as
+   its declaration ("fakeG[T any]"), not as a type: the faithful model shows it, so all theorems
+   above speak about the map as AddVar sees it ([resolve_targets decl rt]) and coincide with the
+   configured map under the guard [plain_targets] (boolean form [plain_targetsb]). *)
+Theorem C13_generic_target_refuted :
+  exists decl rt nt,
+    plain_targetsb decl rt = false /\
+    render (fun _ => []) (v_ty (add_var (resolve_targets decl rt) nt)) = B "fakeG[T any]".
+Proof.
+  exists (fun r => if seqb (snd r) (B "fakeG") then B "[T any]" else []).
+  exists [((B "m/p", B "A"), (B "m/p", B "fakeG"))].
+  exists (B "a", TNamed (B "m/p") (B "A")).
+  split; vm_compute; reflexivity.
+Qed.
+Print Assumptions C13_generic_target_refuted.
+
+Theorem C13_plain_targets : forall decl rt,
+  plain_targetsb decl rt = true -> resolve_targets decl rt = rt.
+Proof. intros decl rt H. apply resolve_plain, plain_targetsb_spec. exact H. Qed.
+Print Assumptions C13_plain_targets.
+
 (* Non-vacuity: M(k ty.K, p *ty.K, v ...ty.K) (ty.K, ty.K2) with K -> rt.R written at the top level. *)
 Example C13_example :
   let K := TNamed (B "m/ty") (B "K") in
@@ -79,7 +100,8 @@ Example C13_example :
               s_results := [([], K); ([], TNamed (B "m/ty") (B "K2"))] |} in
   let i := {| i_name := B "A"; i_rt := [((B "m/ty", B "K"), (B "m/rt", B "R"))]; i_methods := [(B "M", s)] |} in
   let imps := file_imports [(B "m/ty", B "ty"); (B "m/rt", B "rt")] (B "m/out") false [i] in
+  plain_targetsb (fun _ => []) (i_rt i) = true /\
   (imps, map (rendered_method imps) (iface_data i))
   = ([(B "m/rt", B "rt"); (B "m/ty", B "ty")],
      [(B "M", [B "rt.R"; B "*ty.K"; B "[]ty.K"], [B "rt.R"; B "ty.K2"])]).
-Proof. vm_compute. reflexivity. Qed.
+Proof. vm_compute. split; reflexivity. Qed.
